@@ -11,6 +11,12 @@ Two observation modes:
   probe=False  (C12, C17) only what does not load is observed after each step (get, back-links, Handle.cached,
                load counts, the snapshot through .get); loading accesses are actions of the specification.
 
+What load() returns is nothing the intended model depends on (`kind` only names it): the instance fixes one
+assignment of value kinds to handles, each replay pass shifts it (kind_shift) and every second behaviour an adapter
+replays rotates it one kind further (KINDS: None, 0, '', [], an object with hostile __bool__/__eq__, and values of the
+library's own types - a ResourceMap holding a handle ("pack"), a Handle, a World).  Whatever it is, every access path
+must hand out the identical object.
+
 The handles are instances of Handle subclasses of three flavours: plain, sized (`__len__`, empty for now: a playlist
 that has no tracks yet) and switched (`__bool__`, False: "not ready").  A handle is a handle whatever its truth
 value; every other behaviour an adapter replays uses plain handles only, the others mix the flavours (FLAVOURS).
@@ -35,8 +41,18 @@ class Weird:
     __hash__ = object.__hash__
 
 
-MAKERS = {'None': lambda: None, 'zero': lambda: 0, 'str': lambda: '', 'list': lambda: [], 'weird': Weird}
-KINDS = ['None', 'zero', 'str', 'list', 'weird']
+def _pack(desper):
+    """A resource that is itself a map of resources (an archive unpacked by its handle).  Its only name is none of
+    the names the harness reads through the tree."""
+    m = desper.ResourceMap()
+    m['packed'] = desper.Handle()
+    return m
+
+
+# value kind -> maker(desper); the last three are values of the library's own types
+MAKERS = {'None': lambda d: None, 'zero': lambda d: 0, 'str': lambda d: '', 'list': lambda d: [], 'weird': lambda d: Weird(),
+          'rmap': _pack, 'handle': lambda d: d.Handle(), 'world': lambda d: d.World()}
+KINDS = ['None', 'zero', 'str', 'list', 'weird', 'rmap', 'handle', 'world']
 
 # concrete spelling of the model's names "a", "b" for each lexical class
 REAL = {
@@ -119,7 +135,7 @@ def flavour_of(mix, i):
 
 
 class ResourcesAdapter:
-    def __init__(self, desper, probe=False, depth=2, kind_shift=0, keep_snap=0, mix=None):
+    def __init__(self, desper, probe=False, depth=2, kind_shift=0, keep_snap=0, mix=None, rot=None):
         self.desper = desper
         self.probe = probe
         # KeepSnap of the instance: the snapshot is kept (and read) through that many changes of the tree
@@ -129,8 +145,12 @@ class ResourcesAdapter:
         self.mix = mix
         self.nreset = 0
         # The value kind matters to the code only if it is wrong, and not at all to the intended model: the dumped
-        # instance fixes one assignment and each replay pass rotates it (None -> 0 -> '' -> [] -> weird -> None)
+        # instance fixes one assignment, each replay pass rotates it (None -> 0 -> '' -> [] -> weird -> a map -> a
+        # handle -> a world -> None) by kind_shift, and within a pass it moves on by one every second behaviour of
+        # this adapter (rot=None; so that each kind meets plain and falsy handles) or by the fixed `rot`
+        # (--replay tries each; the recorder, whose trace header names the kinds, passes 0)
         self.kind_shift = kind_shift
+        self.rot = rot
         self.depth = depth          # MaxDepth of the instance (not a state variable)
         self.paths = None
         self._exp_cache = {}
@@ -154,7 +174,7 @@ class ResourcesAdapter:
                     env.armed.discard(self.name)
                     raise LoadFault()
                 env.loaded.append(self.name)
-                v = MAKERS[self.kind]()
+                v = MAKERS[self.kind](desper)
                 self.products.append(v)
                 return v
 
@@ -179,7 +199,8 @@ class ResourcesAdapter:
         env.maps = {m: self.RMap() for m in env.order}
         self.nreset += 1
         env.mix = self.mix if self.mix is not None else (0 if self.nreset % 2 else (self.nreset // 2 - 1) % (N_MIXES - 1) + 1)
-        env.handles = {h: self.flavours[flavour_of(env.mix, i)](h, KINDS[(KINDS.index(k) + self.kind_shift) % len(KINDS)])
+        env.rot = self.rot if self.rot is not None else (self.nreset - 1) // 2
+        env.handles = {h: self.flavours[flavour_of(env.mix, i)](h, KINDS[(KINDS.index(k) + self.kind_shift + env.rot) % len(KINDS)])
                        for i, (h, k) in enumerate(sorted(fmap(init['kind']).items()))}
         env.snaps = {}                                             # map id -> snapshot node mirroring it
         cls = fmap(init['cls'])
@@ -193,6 +214,11 @@ class ResourcesAdapter:
         env.probes1 = [p for p in env.probes if '/' not in p[0]]
         # white-box facets only while the attributes they read exist
         self.wb = hasattr(env.maps[env.order[0]], 'handles') and hasattr(env.maps[env.order[0]].handles, 'maps')
+
+    def finish(self, stats):
+        """Evidence only: how many replayed behaviours had a handle loading each kind of value."""
+        for k in {h.kind for h in self.env.handles.values()}:
+            stats.extra['behaviours_loading_' + k] = stats.extra.get('behaviours_loading_' + k, 0) + 1
 
     def _paths(self):
         """Probe paths: every path over the alphabet up to the depth bound, plus names that are never assigned."""
